@@ -73,6 +73,7 @@ func main() {
 		{"api", func() { apiCampaign(o, r, m) }},
 		{"conv", func() { convCampaign(o, r, m) }},
 		{"stack", func() { stackCampaign(o, r, m) }},
+		{"autodev", func() { autodevCampaign(o, r, m) }},
 		{"seeded", func() { seededCases(r, m) }},
 		{"onechar", func() { oneCharPatternCase(r) }},
 		{"geo", func() { geoCampaign(o, r, m) }},
@@ -1291,6 +1292,8 @@ type fixture struct {
 	// Traces outside the next handler: calls of the profiles' rate limiters and
 	// errors reported to the error collector.
 	profRL, errColl int
+	// lookups: calls of the device finder and of the (fake) GeoIP database for the current request.
+	findCalls, geoCalls int
 }
 
 // countingRL is a profile rate limiter that defers to the global one and
@@ -1346,7 +1349,11 @@ func newFixture(c *cfg, proto agd.Protocol) (f *fixture) {
 		f.profs = append(f.profs, newProfile(k, access.NewDefaultProfile(p.conf()), countingRL{&f.profRL}))
 	}
 	fake := agdtest.NewGeoIP()
-	fake.OnData = func(_ string, ip netip.Addr) (*geoip.Location, error) { return f.cur.geoFor(ip), nil }
+	fake.OnData = func(_ string, ip netip.Addr) (*geoip.Location, error) {
+		f.geoCalls++
+
+		return f.cur.geoFor(ip), nil
+	}
 	var geo geoip.Interface = fake
 	if geoOverride != nil {
 		// Campaign geo: the real geoip.File.
@@ -1361,6 +1368,8 @@ func newFixture(c *cfg, proto agd.Protocol) (f *fixture) {
 		StructuredErrors: agdtest.NewSDEConfig(true),
 		AccessManager:    c.global(),
 		DeviceFinder: &agdtest.DeviceFinder{OnFind: func(context.Context, *dns.Msg, netip.AddrPort, netip.AddrPort) agd.DeviceResult {
+			f.findCalls++
+
 			return f.dev
 		}},
 		ErrColl: &agdtest.ErrorCollector{OnCollect: func(context.Context, error) { f.errColl++ }},
@@ -1439,6 +1448,8 @@ type obs struct {
 	// device finder returned (profile and device with all their switches).
 	riDevSame       bool
 	profRL, errColl int
+	// lookups before the decision: device finder and GeoIP calls.
+	findCalls, geoCalls int
 	// rlMetrics: events of the rate-limiting stage reported to the metrics.
 	rlMetrics int
 }
@@ -1486,7 +1497,7 @@ func (f *fixture) serve(ctx context.Context, q *request) (o obs) {
 	f.dev, f.loc, f.cur = f.devResult(q.dev, q.eff()), q.loc, q
 	*f.metrics = recMetrics{}
 	f.nextCalls, f.limCalls, f.countCalls, f.nextHadRI, f.nextRI = 0, 0, 0, false, nil
-	f.profRL, f.errColl = 0, 0
+	f.profRL, f.errColl, f.findCalls, f.geoCalls = 0, 0, 0, 0
 	rw := dnsserver.NewNonWriterResponseWriter(net.UDPAddrFromAddrPort(netip.MustParseAddrPort("192.0.2.2:53")),
 		net.UDPAddrFromAddrPort(q.remote))
 	func() {
@@ -1496,7 +1507,7 @@ func (f *fixture) serve(ctx context.Context, q *request) (o obs) {
 	// Every method of the shared rate limiter counts: its counters are state other clients depend on.
 	o.resp, o.next, o.lim, o.hadRI = rw.Msg(), f.nextCalls, f.limCalls+f.countCalls, f.nextHadRI
 	o.rlMetrics = f.metrics.rateLimited + f.metrics.allowlisted + f.metrics.rlProfile
-	o.profRL, o.errColl = f.profRL, f.errColl
+	o.profRL, o.errColl, o.findCalls, o.geoCalls = f.profRL, f.errColl, f.findCalls, f.geoCalls
 	if f.nextRI != nil {
 		o.ri, o.riDev, o.riLoc = riString(f.nextRI), f.nextRI.DeviceResult, f.nextRI.Location
 		o.riDevSame = o.riDev == f.dev
@@ -1577,6 +1588,13 @@ func judge(r *hlib.Result, campaign string, c *cfg, q *request, o *obs, replay f
 		if o.profRL != 0 || o.errColl != 0 {
 			r.Violate("blocked-request-left-trace:"+suffix, fmt.Sprintf("%s: the property rejects this request (%s) but it left a trace: "+
 				"profile rate limiter calls %d, errors reported %d", campaign, v.class, o.profRL, o.errColl), replay())
+		}
+		if strings.HasPrefix(v.class, "global-") && (o.findCalls != 0 || o.geoCalls != 0) {
+			// The global clauses need nothing but the request: a lookup for such a client — the device finder can create an
+			// automatic device through the backend, a failing GeoIP lookup is reported — is a trace.
+			r.Violate("blocked-request-left-trace:"+suffix+"+lookup-before-global-decision", fmt.Sprintf("%s: the global settings reject "+
+				"this request (%s) but the client was looked up first: device finder calls %d, GeoIP calls %d", campaign, v.class,
+				o.findCalls, o.geoCalls), replay())
 		}
 
 		return v
